@@ -114,11 +114,138 @@ def check_parse(rep, name, cx, r, decl, c, stats, samples, is_view):
                         "obligations": [f"{o.kind}: {'discharged' if o.ok else 'FAILED'}" for o in ev.obls[:4]]})
 
 
+def check_builder(rep, name, cx, r, decl, c, stats, is_struct):
+    """(c) Serialize vs the reference encoding; GetSize vs the bytes written"""
+    from .c03 import Cmp
+    from .. import rslayout, sym
+    where = f"{name}:{decl}"
+    ref_chunks = None
+    if r is not None and decl in r.decls:
+        try:
+            def flat(items):
+                for it in items:
+                    if it["k"] == "child":
+                        yield from flat(it["items"])
+                    elif it["k"] == "chunk":
+                        yield (it["n"], [(bf["shift"], bf["width"], bf["k"]) for bf in it["fields"]])
+            ref_chunks = list(flat(r.full_layout(decl)))
+        except refm.RefError:
+            ref_chunks = None
+    ev = cx.eval_serialize(c, ref_chunks)
+    if ev is None:
+        return
+    if ev.was_skipped:
+        stats["skipped"] += 1
+        return
+    stats["functions"] += 1
+    fnkind = "serialize"
+    for o in ev.obls:
+        stats["obligations"] += 1
+        if o.ok:
+            stats["discharged"] += 1
+        else:
+            rep.add(key_for(o, fnkind), o.what, f"{name}.h:{o.line} {c.name}::Serialize")
+    if any(not o.ok for o in ev.obls):
+        return
+    if r is None or decl not in r.decls:
+        return
+    chain = [decl] + r.parent_chain(decl)
+    for d_ in chain:
+        fs = r.inlined(d_)
+        if any(f.kind == "checksum_start" for f in fs) or any(
+                f.kind in ("typedef", "array") and f.type in r.decls and r.decls[f.type].kind in ("custom", "checksum") for f in fs):
+            return
+    try:
+        want = r.full_layout(decl)
+    except refm.RefError:
+        return
+    if is_struct and r.decls[decl].parent:
+        # a derived struct: does Serialize write the inherited fields at all?
+        class _Quiet:
+            def __init__(self):
+                self.n = 0
+
+            def add(self, *a, **k):
+                self.n += 1
+        q = _Quiet()
+        try:
+            Cmp(q, "C14", where, r, r.big, decl, side="cxxser").run(r.layout(decl), ev.items, ev.env)
+        except Exception:
+            q.n = 1
+        own_n = len([x for x in r.layout(decl) if x["k"] != "checksum_start"])
+        from .c03 import flatten_ref
+        full_n = len([x for x in flatten_ref(want) if x["k"] != "checksum_start"])
+        written_n = len([x for x in ev.items if x["k"] != "fill"])
+        if q.n == 0 or (written_n == own_n and own_n < full_n):
+            rep.add("C14|cxx|serialize|derived-struct-omits-parent-fields", f"{c.name}::Serialize writes only the fields "
+                    f"declared by {decl}; the fields inherited from {r.decls[decl].parent} (and GetSize's share of them) are "
+                    f"missing from the encoding", where)
+            return
+    cm = Cmp(rep, "C14", where, r, r.big, decl, side="cxxser")
+    cm.run(want, ev.items, ev.env)
+    stats["items"] += cm.n
+    stats["serializers"] += 1
+    # GetSize() == bytes written
+    sz = cx.eval_getsize(c)
+    if sz is None or sz.was_skipped or not isinstance(sz.size_value, cxxeval.E) or any(not o.ok for o in sz.obls):
+        return
+    wrote = {}
+    for it in ev.items:
+        wrote = sym.p_add(wrote, rslayout.item_bytes(it, ev.env))
+    got = sz.env.poly(sz.size_value)
+    stats["sizes"] += 1
+
+    def norm(p):
+        out = {}
+        for mono, cf in p.items():
+            m2 = []
+            for a in mono:
+                a = re.sub(r"^ite\(not\(opaque\((is_some\([^)]*\))\)\),0,(.*)\)$", r"ite(opaque(\1),\2,0)", a)
+                m2.append(a)
+            k = tuple(sorted(m2))
+            out[k] = out.get(k, 0) + cf
+        return {k: v for k, v in out.items() if v != 0}
+    # statically counted arrays and statically sized elements
+    subst, scale = {}, {}
+    for d_ in chain:
+        for it_ in r.layout(d_):
+            if it_["k"] == "array" and it_["shape"]["k"] == "static":
+                subst[f"len(self.{it_['name']})"] = it_["shape"]["n"]
+            if it_["k"] == "array" and it_.get("elem_bytes") is not None and it_["elem"]["k"] in ("struct",):
+                scale[f"sum_encoded_len(self.{it_['name']})"] = (f"len(self.{it_['name']})", it_["elem_bytes"])
+            if it_["k"] == "typedef" and it_["tk"] == "struct" and it_.get("static") is not None:
+                subst[f"encoded_len(self.{it_['name']})"] = it_["static"] // 8
+
+    def ap(p):
+        out = {}
+        for mono, cf in p.items():
+            k_, rest = 1, []
+            for a in mono:
+                if a in scale:
+                    rest.append(scale[a][0])
+                    k_ *= scale[a][1]
+                else:
+                    rest.append(a)
+            mono2, k2 = [], 1
+            for a in rest:
+                if a in subst:
+                    k2 *= subst[a]
+                else:
+                    mono2.append(a)
+            key = tuple(sorted(mono2))
+            out[key] = out.get(key, 0) + cf * k_ * k2
+        return {k: v for k, v in out.items() if v != 0}
+    a, b = ap(norm(wrote)), ap(norm(got))
+    if a != b:
+        rep.add("C14|cxx|getsize|bytes-written", f"{c.name}::GetSize() returns {sym.p_str(b)}, Serialize writes {sym.p_str(a)}",
+                where)
+
+
 def run(rep, tier, seed):
     g = rc.gen(tier, seed)
     d, idx = cxxast.stage_cxx(tier, seed)
     stats = {"modules": 0, "functions": 0, "obligations": 0, "discharged": 0, "items": 0, "skipped": 0, "undecided": 0,
-             "constraints": 0, "runtime": 0}
+             "constraints": 0, "runtime": 0, "serializers": 0, "sizes": 0}
     samples = []
     seen_rt = set()
     for name in sorted(idx):
@@ -150,6 +277,10 @@ def run(rep, tier, seed):
             check_parse(rep, name, cx, r, decl, c, stats, samples, False)
         for decl, c in views.items():
             check_parse(rep, name, cx, r, decl, c, stats, samples, True)
+        for decl, c in structs.items():
+            check_builder(rep, name, cx, r, decl, c, stats, True)
+        for decl, c in builders.items():
+            check_builder(rep, name, cx, r, decl, c, stats, False)
     rep.coverage.update({
         "programs": stats["functions"], "disagreements_checked": stats["items"] + stats["obligations"], **stats,
         "samples": samples,
